@@ -210,11 +210,16 @@ func body(sc *scenario, measure bool) func() {
 			} else {
 				// k in [0, StreamLen] x {eof, err, garbage}; k == StreamLen with eof/err = fault right after the last byte;
 				// then k in [0, StreamLen) x single-byte flips with each mask
+				// the last alternative is "no fault": the scenario's healthy run is part of what is judged
 				o.faulty = true
 				if !sc.Flip {
-					c := mcrt.Choose(3*(sc.StreamLen+1), "read fault")
-					o.faultAt, o.faultKind = c/3, mcrt.FaultKind(c%3)
-					s2c.ReadFault = &mcrt.Fault{At: o.faultAt, Kind: o.faultKind}
+					c := mcrt.Choose(3*(sc.StreamLen+1)+1, "read fault")
+					if c == 3*(sc.StreamLen+1) {
+						o.faulty = false
+					} else {
+						o.faultAt, o.faultKind = c/3, mcrt.FaultKind(c%3)
+						s2c.ReadFault = &mcrt.Fault{At: o.faultAt, Kind: o.faultKind}
+					}
 				} else {
 					ms := masksFor(tierName)
 					c := mcrt.Choose(len(ms)*sc.StreamLen, "flipped byte")
@@ -469,10 +474,9 @@ func lastFn(where string) string {
 }
 
 func measure(sc *scenario) {
-	r := mcrt.Run(nil, body(sc, true), mcrt.RunOpts{})
-	if r.Status != mcrt.StComplete {
-		panic(fmt.Sprintf("healthy run of %s did not complete: %s %v %s", sc.Name, r.Status, r.Blocked, r.PanicValue))
-	}
+	_ = mcrt.Run(nil, body(sc, true), mcrt.RunOpts{})
+	// A healthy run that does not complete is not the harness's problem: the fault positions are then taken from what
+	// was delivered, and the fault-free alternative of the scenario reports the hang or panic as a violation.
 	sc.StreamLen = len(cur.s2c.Delivered)
 	sc.Writes = len(cur.c2s.WriteBounds())
 }
